@@ -69,9 +69,22 @@ def local_add_rechecks_unprotected(ck: Checker, rule: str) -> None:
             continue
         for h in [x for x in g.nodes.values() if x.kind == "for" and len(x.loops) == 1]:
             lv = norm(h.ast.target)
-            chk = [n for n in g.nodes.values() if h.id in n.loops for c in calls_at(n)
-                   if is_method_call(c, "check") and norm(c.func.value) == "self" and c.args and norm(c.args[0]) == lv
-                   and not any(k.arg == "check_hash" and isinstance(k.value, ast.Constant) and k.value.value is False for k in c.keywords)]
+            def is_check(c, lv=lv, depth=1) -> bool:
+                if not (isinstance(c.func, ast.Attribute) and norm(c.func.value) == "self" and c.args and norm(c.args[0]) == lv):
+                    return False
+                if c.func.attr == "check":
+                    return not any(k.arg == "check_hash" and isinstance(k.value, ast.Constant) and k.value.value is False for k in c.keywords)
+                # a helper method of the class (possibly inherited) that runs self.check(<its parameter>) on every path
+                m_ = prog.find_method(cls, c.func.attr) if depth > 0 else None
+                if m_ is None or len(m_.pos_params) < 2:
+                    return False
+                gm = ck.cfg(m_)
+                p0 = m_.pos_params[1]
+                inner = {x.id for x in gm.nodes.values() for c2 in calls_at(x) if is_method_call(c2, "check") and norm(c2.func.value) == "self" and c2.args and norm(c2.args[0]) == p0
+                         and not any(k.arg == "check_hash" and isinstance(k.value, ast.Constant) and k.value.value is False for k in c2.keywords)}
+                return bool(inner) and gm.exit not in gm.reach([gm.entry], skip_node=lambda x: x.id in inner, skip_edge=lambda a, l, b: l == "exc")
+
+            chk = [n for n in g.nodes.values() if h.id in n.loops for c in calls_at(n) if is_check(c)]
             if not chk:
                 continue
             # the loop runs before the delegated add
